@@ -101,3 +101,23 @@ Example C13_port_examples :
   norm_port [56;32;48] = ((-1)%Z, true) /\
   norm_port [57;50;50;51;51;55;50;48;51;54;56;53;52;55;55;53;56;48;56] = ((-1)%Z, true).
 Proof. vm_compute. repeat split; reflexivity. Qed.
+
+(* ==== HISTORY LEVEL (PUriHist*.v): for a request of the wire grammar whose target is u, delivered from a fresh connection in ANY chunking (and any folding of the header
+   fields), callbacks answering OK: exactly one transaction t, and uh_c13 u t: t.request_uri = u; the raw parsed URI is parse_uri u (the function the theorems
+   above are about); re-joining the reported components gives u exactly when no_junk_after_bracketb u (the listed finding F13 otherwise), and is always u with
+   one contiguous piece removed (no invented bytes); a target starting with '/' has no scheme and no authority; the normalised port number is the decimal value
+   of the port text when that is in 1..65535, and -1 with HTP_HOSTU_INVALID raised otherwise. uh_c12 g u t is the C12 half (see Properties_C12.v). ==== *)
+Require Import Htp.Model.Base Htp.Model.MBstr Htp.Model.MConnTypes Htp.Model.MTxCommon Htp.Model.MReqLine Htp.Model.MReqUri Htp.Model.MTxReq.
+Require Import Htp.Model.MReq Htp.Model.MRes Htp.Model.MConnp Htp.Model.MUri Htp.Model.MPath.
+Require Import Htp.Spec.SWire Htp.Spec.SUri Htp.Spec.SPath Htp.Proof.PUri Htp.Proof.PPathDot Htp.Proof.PPathLen.
+Require Import Htp.Proof.PWire Htp.Proof.PWireHdr Htp.Proof.PWireBlock Htp.Proof.PWireConn Htp.Proof.PWireExch.
+Require Import Htp.Proof.PWireRun Htp.Proof.PWirePres Htp.Proof.PWireGlue Htp.Proof.PSeg Htp.Proof.PSegLine Htp.Proof.PSegHdr Htp.Proof.PSegGen Htp.Proof.PSegRun Htp.Proof.PSegFold Htp.Proof.PSegPipe.
+Require Import Htp.Proof.PUriHist Htp.Proof.PUriHistTx.
+Require Import Htp.Proof.PUriHistThm.
+Theorem C13_at_history_level : forall cb g r (cuts : list (list bytes)) (chunks : list bytes),
+  wr_all_ok cb -> g_allow_space_uri g = false -> wr_request_ok r = true -> sg_cuts_ok r cuts = true -> sg_fold_fits g r cuts = true ->
+  Forall (fun x => x <> []) chunks -> concat chunks = sg_fold_wire r cuts ->
+  exists t, c_txs (fst (cp_run cb g connp_new (OpOpen :: map OpReqData chunks))) = [Some t] /\
+            uh_c13 (wq_uri r) t /\ uh_c12 g (wq_uri r) t.
+Proof. exact uh_request_uri_fold_chunking. Qed.
+Print Assumptions C13_at_history_level.
